@@ -394,3 +394,188 @@ _old_rules = rules
 def rules(fx, rep):
     _old_rules(fx, rep)
     rule_bucket_reduction(fx, rep)
+
+
+# ---------------------------------------------------------------- digit extraction and inter-window doublings
+def rule_digit_extraction(fx, rep):
+    """Skeleton interpretation of the bucket method for every window size 1..=20 with symbolic
+    scalar bits: per window iteration, the number of doublings and the bit provenance of each
+    component's bucket index.  The digits must partition the scalar bits: digit t bit j is
+    scalar bit D_t + j, where D_t is the number of doublings executed after window t.
+    The bucket reduction between the accumulation and the next window is summarised (it is
+    decided separately by rule_bucket_reduction)."""
+    from exp import BV, BitVal
+    for g, aff in AFFS:
+        p = fx.impl_method('CurveAffine', aff, 'sum_of_products_pippinger')
+        b = fx.body(p) if p else None
+        if b is None:
+            continue
+        o = Origin(b)
+        r = Resolver(b)
+        # region to summarise: from the index call feeding `res += buckets[max_bucket]` to the loop-exit test
+        start_bb = None
+        for bi, t in sorted(b.calls(), key=lambda x: x[0]):
+            c = callee(t)
+            if c and c.get('trait') == 'CurveProjective' and c.get('name') == 'add_assign':
+                a1 = strip(o.operand(t['args'][1]))
+                if a1[0] == 'call' and a1[1].get('name') == 'index' and strip(a1[2][1])[0] == 'phi':
+                    for bj, tj in b.calls():
+                        if (callee(tj) or {}).get('name') == 'index' and tj.get('target') == bi:
+                            start_bb = bj
+                    break
+        end_bb = None
+        for bi, blk in enumerate(b.blocks):
+            tt = blk['term']
+            if tt['k'] == 'switch' and bi in b.reachable():
+                d = o.operand(tt['discr'])
+                if d[0] == 'binop' and d[1] == 'Lt' and strip(d[3]) == ('param', 3):
+                    end_bb = bi
+        inst = '%s:pippinger:digit-extraction' % g
+        if start_bb is None or end_bb is None:
+            rep.fail('BITLIN', inst, 'could not delimit the reduction region (start %r, end %r)' % (start_bb, end_bb), fx.fn(p)['span'], construct=p)
+            continue
+        bad = []
+        n_ok = 0
+        for w in range(1, 21):
+            for npts in ((1,) if w > 3 else (1, 2)):
+                events = []
+
+                def tr(I, fr, t, c, pth):
+                    nm = c.get('name')
+                    res_ = c.get('res') or c['def']
+                    args = t['args']
+                    if res_.startswith('std::vec::from_elem') or c['def'] == 'std::vec::from_elem':
+                        fr.storev(t['dest'], 'BUCKETS')
+                        return True
+                    if nm in ('index', 'index_mut') and 'std::vec::Vec' in res_:
+                        v = fr.deref_operand(args[0])
+                        if v == 'BUCKETS':
+                            idx = fr.operand(args[1])
+                            events.append(('bucket', nm, idx))
+                            key = ('cell', len(events))
+                            fr.store[key] = Lin()
+                            fr.storev(t['dest'], exp.Ref(key, []))
+                            return True
+                    if c.get('trait') == 'CurveProjective' and nm == 'add_assign_mixed':
+                        tgt = fr.operand(args[0])
+                        if isinstance(tgt, exp.Ref) and isinstance(tgt.root, tuple) and tgt.root[0] == 'cell':
+                            pt = fr.deref_operand(args[1])
+                            last = events[-1]
+                            events[-1] = ('acc', last[2], pt)
+                            return True
+                    if c.get('trait') == 'CurveProjective' and nm == 'double':
+                        events.append(('double',))
+                        return True
+                    return bitlin.transfer(I, fr, t, c, pth)
+
+                def block_hook(fr, bb, pth):
+                    if bb == start_bb:
+                        events.append(('reduce',))
+                        return end_bb
+                    return None
+
+                def switch_hook(fr, t, dv, pth):
+                    d = o.operand(t['discr'])
+                    # bucket_index > 0  -> assume true (accumulate); guard itself is checked by the GUARD rule
+                    if d[0] == 'binop' and d[1] in ('Gt', 'Ne') and strip(d[3])[0] == 'const' and strip(d[3])[1].get('v') == 0:
+                        events.append(('guard>0',))
+                        return t['otherwise']
+                    # bucket_index > max_bucket: bookkeeping for the (summarised) reduction
+                    if d[0] == 'binop' and d[1] in ('Gt', 'Lt', 'Ge', 'Le'):
+                        return [bb for v, bb in t['targets'] if v == 0][0]
+                    # the precondition assertion on the top bit
+                    if isinstance(dv, exp.BV) or d[0] == 'binop' and d[1] in ('Eq', 'Ne'):
+                        events.append(('assume', d[1], dv))
+                        # continue on the non-panicking edge: the successor that does not diverge
+                        for v, bb in t['targets'] + [['o', t['otherwise']]]:
+                            tb = b.blocks[bb]['term']
+                            if not (tb['k'] == 'call' and tb['target'] is None):
+                                return bb
+                    return None
+                pts = Agg([Lin.atom('P%d' % j) for j in range(npts)])
+                scal = Agg([Agg([BV([BitVal(256 * j + 64 * ww + i) for i in range(64)]) for ww in range(4)]) for j in range(npts)])
+                I = exp.Interp(fx, 'add', extra_transfer=tr, max_steps=3000000, max_paths=8)
+                I.block_hook = block_hook
+                I.switch_hook = switch_hook
+                try:
+                    res = I.run(p, [('byref', pts), ('byref', scal), Int(w)])
+                except (exp.NotDerivable, exp.Budget) as e:
+                    bad.append('window %d: not derivable: %s at %s' % (w, e, getattr(e, 'where', None)))
+                    continue
+                rep.sites(I.call_sites)
+                if len(res) != 1:
+                    bad.append('window %d: %d paths' % (w, len(res)))
+                    continue
+                # split events into windows
+                wins = []
+                cur = {'doubles': 0, 'acc': []}
+                for e in events:
+                    if e[0] == 'double':
+                        cur['doubles'] += 1
+                    elif e[0] == 'acc':
+                        cur['acc'].append(e)
+                    elif e[0] == 'reduce':
+                        wins.append(cur)
+                        cur = {'doubles': 0, 'acc': []}
+                if cur['doubles'] or cur['acc']:
+                    bad.append('window %d: work after the last reduction' % w)
+                T = len(wins)
+                D = [0] * T
+                acc = 0
+                for t_ in range(T - 1, -1, -1):
+                    D[t_] = acc
+                    acc += wins[t_]['doubles']
+                seen = {j: set() for j in range(npts)}
+                okw = True
+                for t_, wn in enumerate(wins):
+                    if len(wn['acc']) != npts:
+                        bad.append('window %d: iteration %d accumulates %d components' % (w, t_, len(wn['acc'])))
+                        okw = False
+                        break
+                    for j, e in enumerate(wn['acc']):
+                        idx, pt = e[1], e[2]
+                        if not (isinstance(pt, Lin) and list(pt.t) == ['P%d' % j]):
+                            bad.append('window %d: digit of component %d is paired with point %r' % (w, j, pt))
+                            okw = False
+                        if not isinstance(idx, BV):
+                            bad.append('window %d: bucket index not a function of scalar bits' % w)
+                            okw = False
+                            continue
+                        for pos, x in enumerate(idx.e):
+                            if x == 0:
+                                continue
+                            if not isinstance(x, BitVal) or x.n != 256 * j + D[t_] + pos:
+                                bad.append('window %d, iteration %d: digit bit %d is %r but %d doublings follow (expected scalar bit %d)' % (w, t_, pos, x, D[t_], D[t_] + pos))
+                                okw = False
+                                break
+                            if x.n in seen[j]:
+                                bad.append('window %d: scalar bit %d used twice' % (w, x.n - 256 * j))
+                                okw = False
+                            seen[j].add(x.n)
+                    if not okw:
+                        break
+                if okw:
+                    for j in range(npts):
+                        missing = [n for n in range(255) if 256 * j + n not in seen[j]]
+                        if missing:
+                            bad.append('window %d: scalar bits %s of component %d never reach a digit' % (w, missing[:6], j))
+                            okw = False
+                        top = 256 * j + 255 in seen[j]
+                        assumes = [e for e in events if e[0] == 'assume']
+                        if not top and not assumes:
+                            bad.append('window %d: bit 255 is neither used nor asserted clear' % w)
+                            okw = False
+                if okw:
+                    n_ok += 1
+        rep.check(not bad and n_ok == 23, 'BITLIN', inst,
+                  'for every window size 1..=20 (and 2 components for windows 1..3): the per-window digits are exactly consecutive bit fields of the scalar, '
+                  'each followed by as many doublings as bit positions below it, each paired with its own point; bits 0..254 all used once, bit 255 used or asserted clear',
+                  '; '.join(bad[:3]), fx.fn(p)['span'], construct=p)
+
+
+_old_rules2 = rules
+
+
+def rules(fx, rep):
+    _old_rules2(fx, rep)
+    rule_digit_extraction(fx, rep)
